@@ -27,7 +27,7 @@ from contracts.resource import busy, decode
 
 
 class IndBase(Contract):
-    props = ("C08", "C05")
+    props = ("C08", "C05", "C07")
     task_sets = (("Fm",), ("Fm", "Vo"), ("Fo", "Fm"), ("Vm", "Fm", "Fo"))
     horizons = ("int",)
     with_worker = True
@@ -105,6 +105,17 @@ class IndBase(Contract):
             Clause("state[registered with the problem]", z3.BoolVal(registered), props=("C08",), kind="state"),
         ]
         out += self.observer_clause(P, ctx, case, A)
+        # C07: the incremental optimiser stops ("optimum found") as soon as the objective reaches a bound the
+        # indicator declares -- a declared bound must therefore be a bound of the value on every schedule
+        b = getattr(ctx["ind"], "bounds", None)
+        if b is not None:
+            v = self.var(ctx)
+            lims = []
+            if b[0] is not None:
+                lims.append(v >= T(b[0]))
+            if len(b) > 1 and b[1] is not None:
+                lims.append(v <= T(b[1]))
+            out.append(Clause("lemma[a declared bound of the indicator holds on every schedule]", And(*lims), hyps=A, props=("C07", "C08"), kind="lemma", bounded=self.bounded))
         return out
 
     def observer_clause(self, P, ctx, case, A):
